@@ -67,7 +67,7 @@ def c19(tier, only=None):
                    ['<DataValue as PartialEq/Eq/PartialOrd/Ord/Hash> (derived) and the payload types\' impls', 'DataValue::{min, max}', 'SecondaryRowHandler <-> i64'],
                    ['print/parse round trips other than that of Interval, Decimal and Vector are outside (string formatting does not terminate under CBMC)',
                     'agreement of the SQL comparison kernels with cmp on non-NULL values is decided under C14'], 2400 if thorough else 1500,
-                   extra=lambda rep: __import__('mirsmt.c19m', fromlist=['run']).run(rep, thorough))
+                   extra=lambda rep: (__import__('mirsmt.c19m', fromlist=['run']).run(rep, thorough), __import__('mirsmt.c19ops', fromlist=['run']).run(rep, thorough)))
 
 
 def c06(tier, only=None):
@@ -79,4 +79,4 @@ def c06(tier, only=None):
                     'PlainPrimitiveBlockIterator::{new, skip, next_batch, remaining_items}'],
                    ['nullable / RLE / dictionary / char / blob block iterators, column builders and iterators (moka, async) are outside: they exhaust memory under CBMC or are not executable',
                     'Decimal codec (u128 serialization) is outside'], 3000 if thorough else 1500,
-                   extra=lambda rep: (__import__('mirsmt.c06m', fromlist=['run']).run(rep, thorough), __import__('mirsmt.c06m', fromlist=['run_rle']).run_rle(rep, thorough), __import__('mirsmt.c06m', fromlist=['run_blob']).run_blob(rep, thorough), __import__('mirsmt.c06m', fromlist=['run_char']).run_char(rep, thorough)))
+                   extra=lambda rep: (__import__('mirsmt.c06m', fromlist=['run']).run(rep, thorough), __import__('mirsmt.c06m', fromlist=['run_rle']).run_rle(rep, thorough), __import__('mirsmt.c06m', fromlist=['run_blob']).run_blob(rep, thorough), __import__('mirsmt.c06m', fromlist=['run_char']).run_char(rep, thorough), __import__('mirsmt.c06c', fromlist=['run_skip']).run_skip(rep, thorough)))
